@@ -119,8 +119,10 @@ class RootDataset(KDDataset):
     (several wrappers mutate in place).  y/source/target items mirror x for the generic transform wrappers.
     `clobber` maps an access number (per process copy) to (which, seed): foreign code reseeding a global RNG (fault F8)."""
 
-    def __init__(self, kind, size, n_classes=3, clobber=None, **kw):
+    def __init__(self, kind, size, n_classes=3, clobber=None, ctx_tags=False, ds_id=0, **kw):
         super().__init__(**kw)
+        self.ctx_tags = ctx_tags
+        self.ds_id = ds_id
         self.kind = kind
         self.size = size
         self.n_classes = n_classes
@@ -153,7 +155,10 @@ class RootDataset(KDDataset):
         self._foreign_code()
         idx = int(idx)
         assert 0 <= idx < self.size, f"index {idx} out of range({self.size})"
-        k = 0 if self.kind == "dup" else idx
+        if ctx is not None and self.ctx_tags:
+            ctx["root_x"] = (self.ds_id, idx)  # recorded for every sample
+            ctx[f"tag{idx % 3}"] = idx  # key set differs between samples: a leaked context shows up as extra keys
+        k = 0 if self.kind == "dup" else idx + 31 * self.ds_id
         if self.kind == "pil":
             from PIL import Image
             a = ((np.arange(32 * 32 * 3).reshape(32, 32, 3) * (k + 2)) % 251).astype(np.uint8)
